@@ -71,7 +71,15 @@ func vC02Verbs() []string {
 }
 
 func vNewConn(track bool) *Conn {
-	conn := Client(NewConfig("me"))
+	return vBareConn(NewConfig("me"), track)
+}
+
+// vBareConn: an unconnected client as the real constructor and the real
+// per-connection initialiser leave it, with roomier line queues so that a
+// harness can collect what the command methods enqueue without a sender.
+func vBareConn(cfg *Config, track bool) *Conn {
+	conn := Client(cfg)
+	conn.initialise()
 	conn.out = make(chan string, 128)
 	conn.in = make(chan *Line, 16)
 	if track {
